@@ -24,6 +24,8 @@ PERSON_LABELS = {"a", "c", "e", "ä"}
 
 
 class Person:
+    kind = "human"  # an ordinary attribute of the data object (visible as node.kind with forward_attrs=True)
+
     def __init__(self, name, *, age, guid):
         self.name, self.age, self.guid = name, age, guid
 
@@ -32,6 +34,8 @@ class Person:
 
 
 class Department:
+    kind = "unit"
+
     def __init__(self, name, *, guid):
         self.name, self.guid = name, guid
 
@@ -133,7 +137,7 @@ def str_mapper(parent, data):
     return data["str"]
 
 
-PROFILES = ["str", "obj", "obj_falsy", "obj_pop", "dictwrap", "derived", "typed_str", "typed_obj", "typed_derived", "fs", "fs_plain"]
+PROFILES = ["str", "obj", "obj_falsy", "obj_pop", "obj_fwd", "dictwrap", "derived", "typed_str", "typed_obj", "typed_derived", "fs", "fs_plain"]
 # profiles that only C05 uses: a typed tree of DictWrapper objects with the library's DictWrapper mappers
 C05_PROFILES = PROFILES + ["typed_dictwrap"]
 DW_KINDS = ["child", "x", "y", "z"]
@@ -153,6 +157,9 @@ class Profile:
             return Tree("T")
         if n in ("obj", "obj_falsy", "obj_pop"):
             return Tree("T", calc_data_id=_calc_id)
+        if n == "obj_fwd":
+            # attributes of the data objects are readable through the node (the objects have a `kind` attribute)
+            return Tree("T", calc_data_id=_calc_id, forward_attrs=True)
         if n == "fs_plain":
             return Tree("T")
         if n == "dictwrap":
@@ -170,7 +177,7 @@ class Profile:
         return FileSystemTree("T")
 
     def cls(self):
-        return {"str": Tree, "obj": Tree, "obj_falsy": Tree, "obj_pop": Tree, "fs_plain": Tree, "dictwrap": Tree, "derived": MyTree, "typed_str": TypedTree,
+        return {"str": Tree, "obj": Tree, "obj_falsy": Tree, "obj_pop": Tree, "obj_fwd": Tree, "fs_plain": Tree, "dictwrap": Tree, "derived": MyTree, "typed_str": TypedTree,
                 "typed_obj": TypedTree, "typed_derived": MyTypedTree, "fs": FileSystemTree, "typed_dictwrap": TypedTree}[self.name]
 
     def data(self, label):
@@ -181,7 +188,7 @@ class Profile:
             d = label
         elif n == "obj_falsy":
             d = FalsyItem(label, guid="f-" + label)
-        elif n in ("obj", "obj_pop", "derived", "typed_obj", "typed_derived"):
+        elif n in ("obj", "obj_pop", "obj_fwd", "derived", "typed_obj", "typed_derived"):
             if label in PERSON_LABELS:
                 d = Person(label, age=20 + LABELS.index(label), guid="p-" + label)
             else:
@@ -211,6 +218,8 @@ class Profile:
                     kw["data_id"] = opts["id"]
                 if self.typed:
                     kw["kind"] = opts.get("kind") or "child"
+                if opts.get("nid") is not None:
+                    kw["node_id"] = opts["nid"]  # explicit node ids are not part of the file format; they must not disturb it
                 if self.name == "typed_dictwrap":
                     # the data_id of a DictWrapper is the id() of its dict, so a clone whose kind differs from its
                     # first occurrence (written as a full entry) could not be re-united on load by any reader:
@@ -225,7 +234,7 @@ class Profile:
     # -- mappers ----------------------------------------------------------------------
     def save_mapper(self):
         n = self.name
-        if n in ("obj", "typed_obj", "obj_falsy", "obj_pop"):
+        if n in ("obj", "typed_obj", "obj_falsy", "obj_pop", "obj_fwd"):
             return obj_serialize_mapper
         if n == "fs_plain":
             return FileSystemTree.serialize_mapper  # the class mappers used as callbacks on a plain Tree
@@ -235,7 +244,7 @@ class Profile:
 
     def load_mapper(self, tree):
         n = self.name
-        if n in ("obj", "typed_obj", "obj_falsy"):
+        if n in ("obj", "typed_obj", "obj_falsy", "obj_fwd"):
             return obj_deserialize_mapper
         if n == "obj_pop":
             return obj_deserialize_mapper_consuming
@@ -273,7 +282,8 @@ class Profile:
         vd = self.id_is_value_derived()
 
         def one(n):
-            return [self.data_view(n.data), n.data_id if vd else None, getattr(n, "kind", None), [one(c) for c in w.kids[id(n)]]]
+            # (the kind is a property of typed nodes only: on a plain tree with forward_attrs `node.kind` is the data's)
+            return [self.data_view(n.data), n.data_id if vd else None, n.kind if self.typed else None, [one(c) for c in w.kids[id(n)]]]
 
         groups = {}
         for i, n in enumerate(w.pre):
@@ -303,7 +313,7 @@ class Profile:
             keys.append("str")
         if self.typed:
             keys.append("kind")
-        if n in ("obj", "obj_pop", "derived", "typed_obj", "typed_derived"):
+        if n in ("obj", "obj_pop", "obj_fwd", "derived", "typed_obj", "typed_derived"):
             keys += ["type", "name", "age"]
         if n == "obj_falsy":
             keys += ["type", "name"]
@@ -321,10 +331,12 @@ class Profile:
             out.append("str")
         if self.typed:
             out.append("kind")
-        if n in ("obj", "obj_pop", "derived", "typed_obj", "typed_derived", "obj_falsy"):
+        if n in ("obj", "obj_pop", "obj_fwd", "derived", "typed_obj", "typed_derived", "obj_falsy"):
             out += ["type", "name"]
+        if n in ("obj", "obj_pop", "obj_fwd", "typed_obj"):
+            out += ["age"]  # number-valued
         if n in ("dictwrap", "typed_dictwrap"):
-            out += ["name"]
+            out += ["name", "n"]  # "n" is number-valued
         if n in ("fs", "fs_plain"):
             out += ["n"]
         return out
@@ -342,7 +354,7 @@ def resolve_value_map(vm, tree, profile):
             if key == "str":
                 v = n.data if isinstance(n.data, str) else None
             elif key == "kind":
-                v = getattr(n, "kind", None)
+                v = n.kind if profile.typed else None
             else:
                 v = profile.mapper_fields(n).get(key)
             if v is not None and v not in vals:
@@ -392,8 +404,20 @@ def save_tree(tree, profile, cfg, tmpdir, tag):
     return ("text", buf.getvalue(), kw)
 
 
+PRELOAD_DOC = json.dumps({
+    "meta": {"$generator": "nutree/0.0", "$format_version": "1.0",
+             "$key_map": {"data_id": "name", "str": "type", "kind": "age", "zz": "n", "yy": "s"},
+             "$value_map": {"age": ["v0"] * 64, "n": ["v0"] * 64, "name": ["v0"] * 8, "kind": ["v0"] * 8, "s": ["v0"] * 64}},
+    "nodes": [],
+})
+
+
 def load_tree(profile, src, src_tree, cfg, file_meta):
     kind, val, _ = src
+    if cfg.get("preload"):
+        # the caller's file_meta dict was used for loading another (compact, differently mapped) document before:
+        # nothing of that header may be applied to the document loaded now
+        Tree.load(io.StringIO(PRELOAD_DOC), file_meta=file_meta)
     kw = {"file_meta": file_meta}
     m = profile.load_mapper(src_tree)
     if m is not None:
@@ -441,6 +465,10 @@ def config(draw, profile_name):
         keys = draw(st.lists(st.sampled_from(p.possible_keys()), min_size=1, max_size=4, unique=True))
         shorts = draw(st.permutations(SHORT))
         cfg["key_map"] = {k: shorts[i] for i, k in enumerate(keys)}
+        if draw(st.sampled_from([0, 0, 1])):
+            # an identity entry (as in `{f: f[0] for f in fields}` with a one-letter field): the key keeps its name
+            k0 = keys[draw(st.integers(0, len(keys) - 1))]
+            cfg["key_map"][k0] = k0
     vm = draw(st.sampled_from(["default", "default", "off", "custom"]))
     if vm == "off":
         cfg["value_map"] = False
@@ -456,6 +484,8 @@ def config(draw, profile_name):
         cfg["meta"] = draw(st.sampled_from([{"foo": "bar"}, {"n": 1, "ünï": "cödé"}, {"x": [1, 2], "y": None}]))
         if draw(st.sampled_from([0, 0, 1])):
             cfg["presave"] = True
+    if draw(st.sampled_from([0, 0, 0, 1])):
+        cfg["preload"] = True
     return cfg
 
 
@@ -469,6 +499,23 @@ def tree_spec(draw, profile_name, max_nodes=14):
     if p.allows_explicit_ids():
         gen.localize_ids(spec, LABELS)
         gen.fix_sibling_ids(spec)
+    if spec and draw(st.sampled_from([0, 0, 1])):
+        # explicit node ids on some nodes (inner nodes and leaves)
+        flat_ = []
+
+        def collect_(nodes):
+            for n in nodes:
+                flat_.append(n)
+                collect_(n[1])
+
+        collect_(spec)
+        k = draw(st.integers(1, min(4, len(flat_))))
+        for j, i in enumerate(draw(st.lists(st.integers(0, len(flat_) - 1), min_size=k, max_size=k, unique=True))):
+            n = flat_[i]
+            o = dict(n[2]) if len(n) > 2 and n[2] else {}
+            o["nid"] = 7000 + j
+            del n[2:]
+            n.append(o)
     if profile_name in ("fs", "fs_plain"):
         # files (person labels) cannot have children: keep the data plausible
         def prune(nodes):
